@@ -1858,7 +1858,10 @@ PSBT Pubs:\n{self.named_pubs}
         script_pubkey = self.tx_out.script_pubkey
         # if the ScriptPubKey is p2sh, check for a RedeemScript
         if script_pubkey.is_p2sh():
-            self.redeem_script = redeem_lookup.get(script_pubkey.commands[1])
+            # see if we have a RedeemScript already defined or in the lookup
+            self.redeem_script = self.redeem_script or redeem_lookup.get(
+                script_pubkey.commands[1]
+            )
             # if no RedeemScript exists, we can't update, so return
             if not self.redeem_script:
                 return
@@ -1884,13 +1887,11 @@ PSBT Pubs:\n{self.named_pubs}
                 s256 = self.redeem_script.commands[1]
             else:
                 s256 = script_pubkey.commands[1]
-            # look for the WitnessScript using the sha256
-            witness_script = witness_lookup.get(s256)
-            if witness_script:
-                # update the WitnessScript
-                self.witness_script = witness_script
+            # see if we have a WitnessScript already defined or in the lookup
+            self.witness_script = self.witness_script or witness_lookup.get(s256)
+            if self.witness_script:
                 # look through the WitnessScript for any NamedPublicKeys
-                for command in witness_script.commands:
+                for command in self.witness_script.commands:
                     named_pub = pubkey_lookup.get(command)
                     # if found, add the NamedPublicKey
                     if named_pub:
